@@ -661,6 +661,7 @@ Inductive orec :=
 | OB                                     (* body ran *)
 | OT (hs : list N)                       (* hook tasks triggered together *)
 | OR (tr : N) (status : N) (rn : N)      (* published run event *)
+| OF (h : N)                             (* a hook task has ended (its executor reports next) *)
 | OO | OX.                               (* operation begins / has returned *)
 
 (* projected error: per "critical hook(s) failed at trigger" part: trigger, count, named call
@@ -843,7 +844,7 @@ Fixpoint conf (O : list orec) (c : cst) : bool :=
     | OE h opi =>
       let x := (h, opi) in
       mem_id x (c_ru c) && conf O' (mkCst (c_T c) (c_sp c) (rem_id x (c_ru c)) (x :: c_fi c))
-    | OO | OX => conf O' c
+    | OO | OX | OF _ => conf O' c
     | _ =>
       match adv_marker (c_T c) (c_sp c) (c_fi c) with
       | Some (t, T, sp, fi) => marker_match t r && conf O' (mkCst T sp (c_ru c) fi)
@@ -989,6 +990,8 @@ Definition is_OM_begin (n : stepname) (r : orec) : bool :=
          10 a call left callsPendingAwait during an operation (taken as collected) although its
             function had not returned by the end of the operation
          11 a teardown that succeeded did not run a declared DESTROY / after_DESTROY call hook
+         15 a hook task that was triggered and ended within its time-out: something of a later weight
+            or moment (a call, other hook tasks, the task transition) began before it had ended
          14 (mon08x) a failing critical call was collected but its result was lost: the operation that
             took it returned no error
          13 a call hook was given another await point than the declared one (a hook written without
@@ -1156,6 +1159,46 @@ Definition await_then_start_ok (hooks : list hook) (e : evt) (src dst : st) (bef
         else true
       | _ => true end) recs) (due_now ++ due_before).
 
+(* code 15: hook tasks are awaited where they are triggered.  For every group of hook tasks
+   triggered in this operation and every task of it that is scripted to end promptly (or after a
+   while, within its time-out) and whose end is recorded in this operation: nothing of a larger
+   (phase, weight) key - call start, hook-task trigger, task transition - lies between the
+   trigger and that end *)
+Definition prompt_tout (o : tout) : bool :=
+  match o with TOk | TExit | TInvol | TTermX _ _ _ => true | _ => false end.
+Definition task_awaited_ok (hooks : list hook) (o : op) (e : evt) (src dst : st) (recs : list orec) (opi : N) : bool :=
+  let key_of (hk : hook) := match phase_of e src dst (fst (h_trig hk)) with
+                            | Some ph => Some (ph, snd (h_trig hk)) | None => None end in
+  let fix walk (l : list orec) : bool :=
+    match l with
+    | [] => true
+    | OT hs :: r =>
+      forallb (fun h =>
+        match find_hook hooks h with
+        | Some hk =>
+          match key_of hk with
+          | Some k =>
+            if prompt_tout (tout_of (o_touts o) h) && existsb (fun x => match x with OF h' => h' =? h | _ => false end) r
+            then
+              let between := prefix_until (fun x => match x with OF h' => h' =? h | _ => false end) r in
+              negb (existsb (fun x => match x with
+                | OS b ob _ => (ob =? opi) && match find_hook hooks b with
+                                             | Some hb => match key_of hb with Some kb => key_lt k kb | None => false end
+                                             | None => false end
+                | OT hs' => existsb (fun h' => match find_hook hooks h' with
+                                               | Some hb => match key_of hb with Some kb => key_lt k kb | None => false end
+                                               | None => false end) hs'
+                | OB => fst k <=? 1
+                | _ => false end) between)
+            else true
+          | None => true
+          end
+        | None => true
+        end) hs && walk r
+    | _ :: r => walk r
+    end in
+  walk recs.
+
 (* code 10: collect-or-cancel accounting.  A call that was pending before the operation or was
    started in it, and is no longer in callsPendingAwait afterwards, has been taken as collected:
    its function must have returned by the end of the operation *)
@@ -1191,6 +1234,7 @@ Fixpoint mon08_ops (hooks : list hook) (ops : list op) (oos : list opobs) (segs 
               (match oo_res oo with XOk => if steps_ok e src dst recs then 0 else 3 | _ => 0 end);
               (if builtin_split_ok hooks e recs then 0 else 7);
               (if await_then_start_ok hooks e src dst before recs opi pend (oo_pend oo) then 0 else 12);
+              (if task_awaited_ok hooks o e src dst recs opi then 0 else 15);
               await_code hooks e src dst before recs opi pend (oo_pend oo) ]
         | None => 0
         end
